@@ -24,7 +24,8 @@ META = {
         "direction letter reaches the output on every path where its group "
         "matched; numbers pass through int; defaults validated and read at "
         "call time). Decides these structural clauses, not which of two "
-        "overlapping matches finditer prefers on arbitrary text."),
+        "overlapping matches finditer prefers on arbitrary text."
+        ' Also: lock-down of default_ns/default_ew/ocr_scrub (guard asks about the argument; attribute not read again), an omitted default falls back to MasterConfig.<p> (not a frozen constant), the settings are known to Config, sub_scrubber replaces by position.'),
     'assumptions': [
         "zero-width assertions are epsilon in the inclusion test (the repo "
         "regex is over-approximated, so a reported counterexample is a true "
